@@ -247,6 +247,39 @@ def after_fit(inp):
             return {"got": "a point 1e-3 away has a lower documented cost", "expected": "minimum of the documented cost", "witness_class": f"after-fit:{cf}:not-a-minimum"}
 
 
+def gen_units(tier, seed):
+    for scale in (1e-5, 1e-3, 1.0, 1e4):
+        for cf in ("chi2", "nll-gaussian"):
+            for rho in (0.4, 0.05):
+                yield {"scale": scale, "cost": cf, "rho": rho}
+
+
+@R.oracle("correlations_count_in_every_unit", gen_units, obligation="is_diagonal")
+def units_oracle(inp):
+    """data in small (or large) units: a declared correlation is part of the cost before and after do_fit whatever the magnitude of the covariance entries
+    (the choice of the pointwise cost variant must rest on an exact test for a diagonal matrix)"""
+    sc, rho = inp["scale"], inp["rho"]
+    d = Y * sc
+    fit = IndexedFit(d, lambda a=1.2, b=0.3: (a * X + b) * sc, cost_function=inp["cost"])
+    sizes = np.array([0.1, 0.2, 0.15, 0.3]) * sc
+    fit.add_error(sizes, correlation=rho)
+    R_ = np.full((4, 4), rho); np.fill_diagonal(R_, 1.0)
+    V = np.outer(sizes, sizes) * R_
+    for stage in ("before", "after"):
+        if stage == "after":
+            fit.do_fit()
+        pt = tuple(float(v) for v in fit.parameter_values)
+        m = (pt[0] * X + pt[1]) * sc
+        exp = generic_formula(inp["cost"], d, m, V, 0.0)
+        got = float(fit.cost_function_value)
+        if not math.isclose(got, exp, rel_tol=1e-6, abs_tol=1e-7):
+            return {"got": got, "expected": exp, "witness_class": f"units:{stage}-fit:scale-{sc:g}"}
+        g = fit.goodness_of_fit
+        r = d - m
+        if g is not None and inp["cost"] == "chi2" and not math.isclose(float(g), float(r @ np.linalg.solve(V, r)), rel_tol=1e-6, abs_tol=1e-7):
+            return {"got": float(g), "expected": float(r @ np.linalg.solve(V, r)), "witness_class": f"units:gof:{stage}-fit:scale-{sc:g}"}
+
+
 def gen_hist(tier, seed):
     for cf in ("nll-poisson", "nllr-poisson", "chi2", "gauss_approximation", "gauss_approximation_pointwise", "nll-gaussian"):
         for mix in ([], ["y_abs"], ["y_rel_model"], ["y_abs_cor"]):
